@@ -114,3 +114,40 @@ func TestDeadlockDetected(t *testing.T) {
 		t.Fatal("deadlock not found")
 	}
 }
+
+// A recursive read lock deadlocks exactly when a writer announces itself between the two RLocks
+// (sync.RWMutex's writer preference); with no writer around it must never deadlock.
+func TestRecursiveRLockWriterPreference(t *testing.T) {
+	run := func(withWriter bool) (int, map[string]int) {
+		x := &vsched.Explorer{Bound: 2,
+			Body: func() {
+				var m vsync.RWMutex
+				done := make(chan bool, 2)
+				vsched.Go(func() { m.RLock(); m.RLock(); m.RUnlock(); m.RUnlock(); vsched.Send(done, true) })
+				n := 1
+				if withWriter {
+					n = 2
+					vsched.Go(func() { m.Lock(); m.Unlock(); vsched.Send(done, true) })
+				}
+				for i := 0; i < n; i++ {
+					vsched.Recv(done)
+				}
+			},
+			Check: func(e *vsched.Exec) (string, *vsched.Violation) {
+				for _, b := range e.Blocked() {
+					if b.FG {
+						return "deadlock", &vsched.Violation{Key: "dl", Msg: fmt.Sprint(e.Blocked())}
+					}
+				}
+				return "ok", nil
+			}}
+		x.Explore()
+		return len(x.Violations), x.Stats.Outcomes
+	}
+	if n, out := run(true); n == 0 || out["ok"] == 0 {
+		t.Fatalf("with a writer: want both deadlocking and completing schedules, got %v", out)
+	}
+	if n, out := run(false); n != 0 {
+		t.Fatalf("without a writer: recursive RLock must not deadlock, got %v", out)
+	}
+}
